@@ -49,3 +49,54 @@ func Enter(id int) {
 		h(id)
 	}
 }
+
+// ---- synchronisation seam (instrumented builds) -----------------------------------------------------------------
+// In the instrumented variants the library's imports of "sync" and "sync/atomic" are redirected to the shims
+// internal/verif/vsync and internal/verif/vatomic, and its `go` statements to Go below. While a controlled execution
+// of the cooperative scheduler is running (SyncPre != nil) every synchronisation operation is a scheduling point,
+// blocking is visible to the scheduler (a thread that cannot proceed calls Block and is re-polled after another
+// thread changed synchronisation state) and goroutines started by the library are threads of the scheduler.
+// Outside controlled executions the shims behave like the real packages.
+var (
+	SyncPre   func(kind int) // before a synchronisation operation (scheduling point)
+	SyncPost  func()         // after an operation that may have changed what other threads wait for
+	BlockHook func()         // the calling thread cannot proceed; returns when it should poll again
+	GoHook    func(f func()) // the library starts a goroutine
+)
+
+// Controlled reports whether a controlled execution is running.
+func Controlled() bool { return SyncPre != nil }
+
+// Pre is called by the shims before every synchronisation operation.
+func Pre(kind int) {
+	if h := SyncPre; h != nil {
+		h(kind)
+	}
+}
+
+// Post is called by the shims after every state-changing synchronisation operation.
+func Post() {
+	if h := SyncPost; h != nil {
+		h()
+	}
+}
+
+// Block is called by the shims when the calling thread has to wait; false if nobody controls the execution.
+func Block() bool {
+	if h := BlockHook; h != nil {
+		h()
+		return true
+	}
+
+	return false
+}
+
+// Go replaces the library's `go` statements.
+func Go(f func()) {
+	if h := GoHook; h != nil {
+		h(f)
+		return
+	}
+
+	go f()
+}
